@@ -53,7 +53,8 @@ pub uninterp spec fn hn_view(k: http::header::HeaderName) -> Seq<char>;
 pub uninterp spec fn hv_view(v: http::header::HeaderValue) -> Seq<char>;       // the value's bytes as text
 pub uninterp spec fn key_view<K>(k: K) -> Seq<char>;                             // IntoHeaderName / AsHeaderName argument
 pub uninterp spec fn bytes_view(b: hyper::body::Bytes) -> Seq<u8>;
-pub uninterp spec fn full_view(f: http_body_util::Full<hyper::body::Bytes>) -> Seq<u8>;
+pub uninterp spec fn full_inner<D>(f: http_body_util::Full<D>) -> D;
+pub open spec fn full_view(f: http_body_util::Full<hyper::body::Bytes>) -> Seq<u8> { bytes_view(full_inner(f)) }
 
 #[verifier::external_body]
 pub broadcast proof fn axiom_key_view_hn(k: http::header::HeaderName) ensures #[trigger] key_view::<http::header::HeaderName>(k) == hn_view(k) {}
@@ -112,8 +113,8 @@ pub assume_specification [hyper::body::Bytes::len] (b: &hyper::body::Bytes) -> (
     ensures r == bytes_view(*b).len();
 pub assume_specification [<hyper::body::Bytes as Clone>::clone] (b: &hyper::body::Bytes) -> (r: hyper::body::Bytes)
     ensures bytes_view(r) == bytes_view(*b);
-pub assume_specification [http_body_util::Full::<hyper::body::Bytes>::new] (b: hyper::body::Bytes) -> (r: http_body_util::Full<hyper::body::Bytes>)
-    ensures full_view(r) == bytes_view(b);
+pub assume_specification<D: hyper::body::Buf> [http_body_util::Full::<D>::new] (b: D) -> (r: http_body_util::Full<D>)
+    ensures full_inner(r) == b;
 
 // ---- Display of dependency types does not panic (needed by format!); produced text unconstrained ----
 #[verifier::external_body] pub broadcast proof fn axiom_fmt_method() ensures #[trigger] vstd::std_specs::fmt::fmt_req_all::<http::Method>() {}
